@@ -572,6 +572,9 @@ where
                 cases: per as u32,
                 failure_persistence: None,
                 max_shrink_iters: self.max_shrink_iters,
+                // shrinking is bounded in time as well: cases that fail by running into a bound
+                // (a missing reply, a hang) take seconds each
+                max_shrink_time: env.tier.pick(45_000, 240_000),
                 max_global_rejects: 65536,
                 ..Config::default()
             };
